@@ -40,3 +40,10 @@ CONFIG = dict(
 )
 
 CONFIG["level_text"] = CONFIG["level_text"] + " " + "Template level: a `counterExact` analysis over the component trees (no scope shadows the evaluation counter) is proved sound for every execution of an abstract interpreter, and the kernel re-evaluates it by `decide` on the trees of all 21 templates x 4 parameter points regenerated from the code's own Serialize output on every run (84 obligations; ILS = false, the recorded finding, with a concrete violating model execution)."
+
+# K-only stream: the component classes the template-level analysis relies on (Tpl.callsObjective / Tpl.eclass) are
+# compared with what every executed component of every template run was observed to do.
+CONFIG["extra"] = [dict(bin="c16", drv="drv_c16", args=["--audit"], head="audit")]
+CONFIG["trusted_base"] = CONFIG.get("trusted_base", []) + [
+    "component classes of Model/TemplatesEval.lean (callsObjective, insertsCounter, eclass) are declared, not derived; "
+    "validated per executed step of all template runs by the audit stream (K)"]
